@@ -60,6 +60,7 @@ def forward_cost(S, h, Ls, p, ds):
 CORPUS_DISCRETE = [
 	{'N': 2, 'h': [1, 4], 'Ls': [3, 1], 'p': 2, 'kind': 'P', 'mean': 5},                      # upstream echelon costly RELATIVE TO THE STOCKOUT COST: upstream minimiser below the downstream optimum
 	{'N': 3, 'h': [1, 6, 1], 'Ls': [2, 1, 1], 'p': 3, 'kind': 'P', 'mean': 5},
+	{'N': 2, 'h': [1, 1], 'Ls': [1, 1], 'p': 5, 'kind': 'P', 'mean': 2, 'cands': [[0, 5], [0, 0], [3, 0]]},     # an echelon level of exactly 0 is a level, not "missing"
 	{'N': 2, 'h': [1, 2], 'Ls': [1, 3], 'p': 20, 'kind': 'UD', 'lo': 8, 'hi': 12,              # unequal lead times, stage 2 evaluated below the internal grid
 	 'cands': [[12, 20], [12, 14], [6, 10]]},
 	{'N': 3, 'h': [3, 2, 1], 'Ls': [1, 2, 1], 'p': 30, 'kind': 'CD', 'vals': [4, 5, 6, 7], 'probs': [0.2, 0.4, 0.3, 0.1],
